@@ -18,7 +18,7 @@ PanicOnly == {"panic"}
 \* bound for the safety runs (the number of good frames before the target is unbounded)
 FrameBound == stats.frames <= MaxFrames
 \* `consumed' is a history variable: it does not influence behaviour
-View == <<queue, senders, term, wstate, epoch, stats, published, reports, result, pc, r, failed, rq, lastRep, lines, x>>
+View == <<queue, senders, term, wstate, epoch, stats, published, reports, result, pc, r, failed, rq, lastRep, lines, x, pend, sending>>
 
 CollectorPc == pc[0]
 StatsExact == stats = Fold(consumed, Len(consumed))                         \* counters = sums over whole consumed frames
@@ -31,6 +31,8 @@ FinishedLast ==
   /\ (result \in {"ok", "error"} => Len(reports) >= 1 /\ reports[Len(reports)] = "Finished")
   /\ (result = "ok" => Len(published) = Epochs /\ Len(reports) = Epochs + 1)
 NoCollectorPanic == result # "panic"
+\* no worker is blocked in a send while the collector has stopped receiving and waits to join it
+NoBlockedSendAtJoin == ~(CollectorPc = "c_join" /\ \E w \in Workers : pc[w] = "w_send" /\ sending[w] /\ Len(queue) >= QMax)
 \* the collector is never blocked in recv with nobody left who could send (the hang of D7)
 NoStuck == ~(CollectorPc = "c_recv" /\ queue = <<>> /\ senders # {} /\ \A w \in Workers : wstate[w] # "run")
 ErrorOnFault == result = "ok" => \A w \in Workers : wstate[w] \notin {"err", "panic"}
